@@ -572,8 +572,27 @@ fn c07_driver_replay(m: &FsmModel, hist: &[u16]) -> Result<Option<Vec<(String, S
                 }
             }
         }
-        for c in conns.iter_mut().flatten() {
-            c.wait_end(true).await;
+        // finally: a hard reset (reset_peer API, Cease through the close channel, bypassing the FSM)
+        // must also return every remaining connection to Idle and free its slot
+        if conns.iter().any(|c| c.is_some()) {
+            hard_reset(&d, addr).await;
+            for c in conns.iter_mut().flatten() {
+                c.wait_end(false).await;
+            }
+            let mut leaked = None;
+            for _ in 0..2000 {
+                match arbiter_view(&d, addr).await {
+                    Some((State::Idle, State::Idle, false, false)) => {
+                        leaked = None;
+                        break;
+                    }
+                    other => leaked = other,
+                }
+                tokio::time::sleep(std::time::Duration::from_micros(300)).await;
+            }
+            if let Some((a, p, sa, sp)) = leaked {
+                out.push(("C07/driver/slot-not-freed-after-reset".into(), format!("after a hard reset the connections are gone but the arbiter shows states ({:?}, {:?}) and close-channel slots ({sa}, {sp})", a, p)));
+            }
         }
         Ok(Some(out))
     })
